@@ -74,6 +74,14 @@ CORPUS_SRC = r'''(def corpus @[])
 (def clo2 (resume fib2))
 (fiber/setenv fib2 @{:dynvar 12})
 (add "fiber-child" @{:f fib2 :c clo2})
+(def fib3 (fiber/new (dcompile '(fn bigframe [a]
+  (var v0 (+ a 0)) (var v1 (+ a 1)) (var v2 (+ a 2)) (var v3 (+ a 3)) (var v4 (+ a 4)) (var v5 (+ a 5)) (var v6 (+ a 6)) (var v7 (+ a 7)) (var v8 (+ a 8)) (var v9 (+ a 9)) (var v10 (+ a 10)) (var v11 (+ a 11)) (var v12 (+ a 12)) (var v13 (+ a 13)) (var v14 (+ a 14)) (var v15 (+ a 15)) (var v16 (+ a 16)) (var v17 (+ a 17)) (var v18 (+ a 18)) (var v19 (+ a 19)) (var v20 (+ a 20)) (var v21 (+ a 21)) (var v22 (+ a 22)) (var v23 (+ a 23)) (var v24 (+ a 24)) (var v25 (+ a 25)) (var v26 (+ a 26)) (var v27 (+ a 27))
+  (def peek (fn peek [] [v0 v13 v19 v27]))
+  (def poke (fn poke [x] (set v26 x) (set v17 x) (set v1 x) v26))
+  (def r (yield [peek poke]))
+  (+ v0 v1 v17 v26 v27 (if (number? r) r 0)))) :yi))
+(def pp3 (resume fib3 5))
+(add "fiber-bigframe" [pp3 fib3])
 (add "fiber-dead" (let [f (fiber/new (fn [] 1))] (resume f) f))
 (add "fiber-new" (fiber/new (fn [a] (yield a) (+ a 1)) :yi))
 (add "fiber-err" (let [f (fiber/new (fn [] (error "boom")) :e)] (resume f) f))
@@ -152,7 +160,7 @@ PRELUDE = r'''# ---- C10 harness (constant part of every plan) ----
 (def bad-prefixes ["os/" "ffi/" "net/" "file/" "ev/" "debug/" "module/" "bundle/" "thread/" "sim/"])
 (def bad-names ["sandbox" "native" "dofile" "require" "import*" "slurp" "spit" "getline" "stdin" "stdout" "stderr"
                 "repl" "cli-main" "run-context" "gcsetinterval" "eprint" "eprintf" "eprin" "eprinf" "xprint" "xprintf"
-                "xprin" "xprinf" "flush" "eflush" "quit" "root-env" "load-image" "make-image" "load-image-dict"
+                "xprin" "xprinf" "flush" "eflush" "quit" "load-image" "make-image" "load-image-dict"
                 "make-image-dict" "curenv" "make-env" "all-bindings" "all-dynamics" "doc*" "easy-bind" "short-fn"])
 (each k (keys lk)
   (def s (string k))
@@ -166,10 +174,9 @@ PRELUDE = r'''# ---- C10 harness (constant part of every plan) ----
 
 (def argpool [nil 0 1 -1 2.5 "abc" :kw 'sym @"buf" [1 2] @[1 2 3] {:a 1} @{:b 2} (fn [& x] x) (math/sqrt -1) 1e308
               (int/s64 5) true "" 255 -2147483648 2147483647 [] @{} 65536 "0123456789" false (math/exp 1000) :a 7])
-(defn arglist [seed j]
-  (def n (% (+ seed j) 7))
+(defn nargs [seed n]
   (def out @[])
-  (for i 0 n (array/push out (in argpool (% (+ (* seed 7) (* j 13) (* i 31)) (length argpool)))))
+  (for i 0 n (array/push out (in argpool (% (+ (* seed 7) (* i 31)) (length argpool)))))
   out)
 
 # run a thunk in a fresh fiber that traps every signal and has a small stack: nothing escapes
@@ -207,8 +214,7 @@ PRELUDE = r'''# ---- C10 harness (constant part of every plan) ----
 
 (def peg-texts ["hdaq123,abc,zzz" "" "hdbZ12,B12=12Arep" "a b  c\n" "axyz" "hdcyGg@L3abcI\x01\x02\x03\x04\x05\x06\x07\x08\x09\x0a\x0b\x0c\x0d\x0e\x0f" "T12xN9912"])
 
-(defn exercise [v orig mask seed]
-  (def work @[])
+(defn exercise-passive [v orig mask]
   (when (not= 0 (band mask 1))
     (bounded (fn [] (string/format "%q" v)))
     (bounded (fn [] (string/format "%j" v)))
@@ -226,7 +232,14 @@ PRELUDE = r'''# ---- C10 harness (constant part of every plan) ----
   (when (not= 0 (band mask 8))
     (def [st r] (bounded (fn [] (marshal v mkdict))))
     (when (= st :dead) (bounded (fn [] (unmarshal r lk))))
-    (bounded (fn [] (marshal v))))
+    (bounded (fn [] (marshal v)))))
+
+(defn exercise [v orig mask seed]
+  (def work @[])
+  # the passive steps (print, compare, freeze, marshal) validate lazily checked parts of a loaded value (on-stack
+  # environments); run them before or after the active steps depending on the seed
+  (def passive-first (not= 0 (% seed 3)))
+  (when passive-first (exercise-passive v orig mask))
   (array/concat work (collect v))
   (var calls 0)
   (var wi 0)
@@ -236,10 +249,16 @@ PRELUDE = r'''# ---- C10 harness (constant part of every plan) ----
     (case (type x)
       :function
       (when (not= 0 (band mask 16))
+        # an argument count the function accepts (an arity error executes nothing)
+        (def [ast ar] (bounded (fn [] [(disasm x :min-arity) (disasm x :max-arity)])))
+        (def lo (if (= ast :dead) (max 0 (min 6 (in ar 0))) 0))
+        (def hi (if (= ast :dead) (max lo (min 6 (in ar 1))) 6))
+        (def n (+ lo (% (+ seed wi) (+ 1 (- hi lo)))))
         (for j 0 2
-          (def args (arglist (+ seed wi) j))
+          (def args (nargs (+ seed wi j 11) n))
           (def [st r fb] (bounded (fn [] (x ;args))))
           (bump :function_called)
+          (when (not= st :error) (bump :function_returned))
           (++ calls)
           (when (or (function? r) (fiber? r)) (if (< (length work) 14) (array/push work r)))
           (when (not= 0 (band mask 1)) (bounded (fn [] (string/format "%q" r))))
@@ -277,6 +296,7 @@ PRELUDE = r'''# ---- C10 harness (constant part of every plan) ----
           (++ k))
         (bounded (fn [] (ev/chan-close x))))
       nil))
+  (unless passive-first (exercise-passive v orig mask))
   (when (not= 0 (band mask 256)) (gccollect))
   calls)
 
@@ -307,7 +327,10 @@ PRELUDE = r'''# ---- C10 harness (constant part of every plan) ----
 (defn run-unmarshal-case [c bases origs]
   (def i (in c 0))
   (def bi (in c 1))
-  (def bytes (build (if (>= bi 0) (in bases bi) "") (tuple/slice c 5)))
+  # the image is handed over in an allocation of exactly its size (odd cases: string, else trimmed buffer), so that
+  # reading even one byte past the input is outside the object
+  (def bytes0 (build (if (>= bi 0) (in bases bi) "") (tuple/slice c 5)))
+  (def bytes (if (odd? i) (string bytes0) (buffer/trim bytes0)))
   (mark "L" i)
   (sim/ev :case i)
   (def res (try [true (if (= 1 (in c 2)) (unmarshal bytes lk) (unmarshal bytes))] ([e] [false e])))
@@ -385,7 +408,7 @@ PRELUDE = r'''# ---- C10 harness (constant part of every plan) ----
   (def i (in c 0))
   (def bi (in c 1))
   (var d (if (>= bi 0) (thaw-desc (in descs bi)) @{}))
-  (each m (in c 5) (set d (apply-mut d m)))
+  (each m (in c 5) (set d (try (apply-mut d m) ([e] d))))
   (mark "L" i)
   (sim/ev :case i)
   (def res (try [true (asm d)] ([e] [false e])))
